@@ -463,7 +463,7 @@ func genFile(t *rapid.T, pool []string, maxLines int, emptyValues bool, sub ...s
 				if pbt.KnownOpen(findingLongLines) {
 					pbt.CountExcluded(sub[0], 1)
 				} else {
-					l.Pad = rapid.SampledFrom([]int{3000, 4070, 4090, 4096, 5000, 9000}).Draw(t, "pad")
+					l.Pad = rapid.SampledFrom([]int{3000, 4070, 4090, 4096, 5000, 9000, 65500, 65536, 70000, 140000}).Draw(t, "pad")
 				}
 			}
 			f.Lines = append(f.Lines, l)
